@@ -33,7 +33,7 @@ func apiIndex(a string) int {
 }
 
 // buildConcOps returns the fixed operation list against st.
-func buildConcOps(st *trie.SlimTrie, qs []string, complete bool, i32 bool, small bool) []concOp {
+func buildConcOps(st *trie.SlimTrie, qs []string, complete bool, i32 bool, nString int) []concOp {
 	var ops []concOp
 	add := func(api string, f func() string) { ops = append(ops, concOp{api, f}) }
 	for i, q := range qs {
@@ -127,7 +127,7 @@ func buildConcOps(st *trie.SlimTrie, qs []string, complete bool, i32 bool, small
 			return strconv.Itoa(len(b)) + " " + hex.EncodeToString(sha8(b)) + " " + qbool(err == nil)
 		})
 		add("proto.Size", func() string { return strconv.Itoa(proto.Size(st)) })
-		if small {
+		if t < nString {
 			add("String", func() string {
 				s := st.String()
 				return strconv.Itoa(len(s)) + " " + hex.EncodeToString(sha8([]byte(s)))
@@ -265,7 +265,29 @@ func runC11(ctx *Ctx, idx int) {
 	// ---- the shared instance
 	kindNo := instNo % 5
 	var ks KeySet
-	switch r.Intn(5) {
+	fam := r.Intn(5)
+	if instNo%15 == 5 {
+		fam = 5 // keys longer than any fixed-size scratch buffer is likely to be
+	}
+	if instNo%15 == 10 {
+		fam = 6 // thousands of values: whatever takes a special path for big tries
+		if G != 4 {
+			fam = 1 // (once per instance; the other goroutine counts get a small trie)
+		}
+	}
+	switch fam {
+	case 5:
+		k := genSmallAlpha(r)
+		for len(k) < 12 {
+			k = sortUniq(append(k, genSmallAlpha(r)...))
+		}
+		ks = KeySet{"long-keys", withPrefix(r, k, r.Range(70, 260), true)}
+	case 6:
+		var k []string
+		for len(k) < 4500 {
+			k = sortUniq(append(k, genUniform(r, 3000)...))
+		}
+		ks = KeySet{"big-5000", k}
 	case 4:
 		// lopsided: shallow where a scan starts, much deeper further on (the
 		// scan stack has to grow while iterating)
@@ -296,8 +318,15 @@ func runC11(ctx *Ctx, idx int) {
 	if kindNo >= 3 && (vkind == "str16" || vkind == "none" || vkind == "rawstr") {
 		vkind = "structLE" // the old layouts need fixed-size values
 	}
+	if ks.Family == "big-5000" {
+		vkind = "i32"
+	}
 	vals := genVals(r, vkind, n, r.Intn(3))
+	if ks.Family == "big-5000" {
+		vals = genVals(r, vkind, n, 0) // distinct: more than 4096 stored values
+	}
 	ctx.Count("valkind:"+vkind, 1)
+	ctx.Count("family:"+ks.Family, 1)
 	// The instance is built twice from the same recipe: one copy answers the
 	// operations alone (phase 1), the other is handed to the goroutines without
 	// ever having been read - a lazily initialised or first-use cached state
@@ -379,8 +408,14 @@ func runC11(ctx *Ctx, idx int) {
 		}
 		qs = sel
 	}
-	ops := buildConcOps(st, qs, o.Complete(), vkind == "i32", n <= 300)
-	opsSolo := buildConcOps(stSolo, qs, o.Complete(), vkind == "i32", n <= 300)
+	nString := 0
+	if n <= 300 {
+		nString = 6
+	} else if ks.Family == "big-5000" {
+		nString = 1 // rendering thousands of nodes is slow under the race detector
+	}
+	ops := buildConcOps(st, qs, o.Complete(), vkind == "i32", nString)
+	opsSolo := buildConcOps(stSolo, qs, o.Complete(), vkind == "i32", nString)
 
 	// ---- phase 1: canonical results, sequentially
 	canon := make([]string, len(ops))
